@@ -98,9 +98,11 @@ func preBlock(fw *formatWriter, source []byte, cursor *commonmark.Cursor) (child
 		}
 		return "", true
 	case commonmark.ListKind:
-		if fw.hasWritten && curr.IsTightList() {
-			// Individual list items won't contain a blank line,
-			// so add them beforehand.
+		if fw.hasWritten {
+			// Separate the list from what precedes it.
+			// (Without a blank line, a loose or ordered list
+			// may not be able to interrupt a preceding paragraph,
+			// and it would be taken into a preceding HTML block.)
 			fw.s("\n")
 		}
 		return "", true
